@@ -20,6 +20,9 @@ pub enum Op {
     SetV { key: String, delta: i32, val: String },
     ArbiterConnect,
     ArbiterDisconnect,
+    /// single node: a completed snapshot, then the node is killed and started again (pending conflicts and
+    /// the keys waiting for the arbiter are part of the persisted state; no arbiter is connected afterwards)
+    Restart,
     /// the arbiter answers the oldest (or, `newest`, the most recent) notice it holds; `take_new` =
     /// resolve with the conflicting value
     Resolve {
@@ -59,6 +62,8 @@ fn gen(rng: &mut Rng, cluster: bool) -> Program {
             8 => {
                 if cluster {
                     Op::Resolve { take_new: true, newest: false }
+                } else if rng.chance(1, 2) {
+                    Op::Restart
                 } else {
                     Op::ArbiterDisconnect
                 }
@@ -143,7 +148,7 @@ fn execute(prog: Program) -> Outcome {
         out.setup = Err("setup_unstable".into());
         return out;
     }
-    let dbs: Vec<Arc<Databases>> = match (0..prog.nodes).map(|i| w.dbs(i)).collect::<Option<Vec<_>>>() {
+    let mut dbs: Vec<Arc<Databases>> = match (0..prog.nodes).map(|i| w.dbs(i)).collect::<Option<Vec<_>>>() {
         Some(d) => d,
         None => return out,
     };
@@ -234,6 +239,50 @@ fn execute(prog: Program) -> Outcome {
                 if let Some(a) = arbiter.take() {
                     a.disconnect();
                     inbox.clear();
+                }
+            }
+            Op::Restart => {
+                if cluster {
+                    continue;
+                }
+                padmin.exec("snapshot false");
+                if !w.declutter_tick(0, 20_000) {
+                    out.violations.push(Violation::new("snapshot-stuck", loc.clone(), format!("op #{}: background snapshot did not finish", i)));
+                    return out;
+                }
+                nundb_verif_rt::kernel::with(|k| k.fault("restart_with_pending_conflicts"));
+                arbiter = None;
+                inbox.clear();
+                w.kill(0);
+                w.boot(0, "");
+                if !w.wait_primary(0, 8_000) {
+                    let panic = nundb_verif_rt::kernel::with(|k| k.panics.last().map(|p| format!("{} at {}", p.message, p.location)));
+                    out.violations.push(Violation::new("restart-failed", loc.clone(), format!("op #{}: node did not come back ({:?})", i, panic)));
+                    return out;
+                }
+                dbs[0] = match w.dbs(0) {
+                    Some(d) => d,
+                    None => return out,
+                };
+                padmin = Session::admin(&dbs[0]);
+                padmin.exec("use-db a tok");
+                writer = Session::admin(&dbs[0]);
+                writer.exec("use-db a tok");
+                admin_on_writer = Session::admin(&dbs[0]);
+                admin_on_writer.exec("use-db a tok");
+                // nobody is registered as arbiter of the restarted node
+                ever_registered = false;
+                // what was pending is still pending
+                for key in KEYS.iter() {
+                    let entries = pending_conflict_entries(&mut padmin, key);
+                    let unresolved = entries.iter().filter(|e| e.1.starts_with("resolve ")).count();
+                    if unresolved != queue[*key].len() {
+                        out.violations.push(Violation::new(
+                            "conflict-lost-by-restart",
+                            format!("{}:depth{}", loc, queue[*key].len().min(3)),
+                            format!("op #{}: {} conflicts were pending on {} at the completed snapshot, after the restart the $conflicts_ entries are {:?}", i, queue[*key].len(), key, entries),
+                        ));
+                    }
                 }
             }
             Op::Set { key, val } | Op::SetV { key, val, .. } => {
